@@ -137,7 +137,7 @@ func c03Explore(e *fw.Env, r *fw.Result, bound int, restrict map[string][]int, p
 			r.Sample(3, map[string]any{"pass": pass, "stream": desc, "bytes": len(stream)})
 		}
 		done := e.Guard(r, 90*time.Second, func() (string, string, any) {
-			return "vp8l hang :: " + desc, "decoding did not finish within 90 s (hang) [stream: " + desc + "]", c03Replay{hex.EncodeToString(stream), desc}
+			return "vp8l hang :: " + desc, "decoding used more than 90 CPU-seconds without finishing (hang) [stream: " + desc + "]", c03Replay{hex.EncodeToString(stream), desc}
 		})
 		v := c03Judge(stream)
 		done()
